@@ -31,23 +31,48 @@ CONNECT_OK = b"HTTP/1.1 200 Connection established\r\n\r\n"
 
 
 class Authority:
-    """Two CAs and a cache of leaf certificates (per process)."""
+    """Three throw-away CAs and a cache of leaf certificates (per process).
 
-    def __init__(self):
+    trusted        the private CA the client is handed whenever it CONFIGURES a CA source
+                   (as a file: capath, as PEM text: cadata, as a c_rehash-style directory: cadir)
+    untrusted      in no store at all
+    default_store  the only member of this process' DEFAULT trust store: SSL_CERT_FILE / SSL_CERT_DIR
+                   (environment only -- nothing in urllib3 or ssl is patched) point at it, which is what
+                   ssl.SSLContext.load_default_certs() / set_default_verify_paths() read
+    """
+
+    def __init__(self, default_store_env=True):
         import trustme
         self.dir = tempfile.mkdtemp(prefix="vh-tls-")
         self.trusted = trustme.CA()
         self.untrusted = trustme.CA()
+        self.default_store = trustme.CA()
         self.capath = os.path.join(self.dir, "trusted-ca.pem")
         self.trusted.cert_pem.write_to_path(self.capath)
         self.cadata = self.trusted.cert_pem.bytes().decode()
+        self.cadir = os.path.join(self.dir, "cadir")
+        os.mkdir(self.cadir)
+        self.trusted.cert_pem.write_to_path(os.path.join(self.cadir, self._subject_hash(self.cadata) + ".0"))
+        self.default_file = os.path.join(self.dir, "default-store.pem")
+        self.default_store.cert_pem.write_to_path(self.default_file)
+        self.empty_dir = os.path.join(self.dir, "empty")
+        os.mkdir(self.empty_dir)
+        if default_store_env:
+            os.environ["SSL_CERT_FILE"] = self.default_file
+            os.environ["SSL_CERT_DIR"] = self.empty_dir
         self._leaves = {}
 
+    @staticmethod
+    def _subject_hash(pem: str) -> str:
+        """File name stem OpenSSL looks up in a CApath directory (what c_rehash computes)."""
+        from OpenSSL import crypto
+        return "%08x" % crypto.load_certificate(crypto.FILETYPE_PEM, pem.encode()).subject_name_hash()
+
     def leaf(self, issuer: str, sans: tuple = (), common_name: str | None = None):
-        """-> (server-side SSLContext, DER bytes of the leaf).  issuer: 'trusted' | 'untrusted'."""
+        """-> (server-side SSLContext, DER bytes, sni holder).  issuer: 'trusted' | 'untrusted' | 'default_store'."""
         key = (issuer, tuple(sans), common_name)
         if key not in self._leaves:
-            ca = self.trusted if issuer == "trusted" else self.untrusted
+            ca = {"trusted": self.trusted, "untrusted": self.untrusted, "default_store": self.default_store}[issuer]
             cert = ca.issue_cert(*sans, common_name=common_name)
             ctx = ssl.SSLContext(ssl.PROTOCOL_TLS_SERVER)
             cert.configure_cert(ctx)
